@@ -118,6 +118,20 @@ Theorem C10_model_chunk_size_in_those_terms :
    if IMAX - (ha c - 1) <? n then None else Some n).
 Proof. exact model_new_chunk_size. Qed.
 
+(* the header NonDummyChunk::new writes in the CURRENT source (header address, initial position, end field; cut out of
+   raw_bump.rs and translated on every run) is the header the model and the type-erased view assume *)
+Theorem C10_source_new_chunk_header_is_the_models :
+  forall c ch, cfg_ok c -> chunk_geom c ch ->
+  if up c then
+    AllocSites.new_chunk_up_header (cbase ch) = Ok (h_addr (header_of c ch)) /\
+    AllocSites.new_chunk_up_pos (cbase ch) (hs c) = Ok (fresh_pos c ch) /\
+    AllocSites.new_chunk_up_end (cbase ch) (csize ch) = Ok (h_end (header_of c ch))
+  else
+    AllocSites.new_chunk_down_header (cbase ch) (csize ch) (hs c) = Ok (h_addr (header_of c ch)) /\
+    AllocSites.new_chunk_down_pos (h_addr (header_of c ch)) = Ok (fresh_pos c ch) /\
+    AllocSites.new_chunk_down_end (cbase ch) = Ok (h_end (header_of c ch)).
+Proof. exact new_chunk_header_refines. Qed.
+
 Print Assumptions C10_stats_identities.
 Print Assumptions C10_reachable.
 Print Assumptions C10_chunks_strictly_grow.
@@ -133,3 +147,4 @@ Print Assumptions C10_any_view_pinned_refuted.
 Print Assumptions C10_source_grow_size_is_the_models.
 Print Assumptions C10_source_hint_composition_is_the_models.
 Print Assumptions C10_model_chunk_size_in_those_terms.
+Print Assumptions C10_source_new_chunk_header_is_the_models.
